@@ -144,7 +144,7 @@ def terminal_mask_independent_statement : Prop :=
 
 theorem terminal_mask_batch_dependent : ¬ terminal_mask_independent_statement := by
   intro hst
-  have hw : WF one := ⟨by decide, by decide, by decide, fun p hp => hp, fun j m _ _ => by simp [one]⟩
+  have hw : WF one := ⟨by decide, by decide, by decide, fun p hp => hp, fun j m _ _ => small_lt_unset (by simp [one])⟩
   have := hst one (reset one) 0 hw ⟨[], Run.nil _⟩ (by decide) (by decide) 0
   revert this
   decide
@@ -282,5 +282,89 @@ theorem batchMove_eq_moveNext (rows : List (Inst × State)) (F : Nat)
 example : batchMoveLoop 10 [(one, apply one (reset one) 0, false), (one, reset one, true)] =
     [(one, apply one (reset one) 0, false), (one, reset one, true)].map (rowMove 10) :=
   batchMoveLoop_eq_map _ _
+
+/-! ### The repaired clause for the terminal-mask finding
+
+`terminal_mask_batch_dependent` is caused by one line: `_step` skips `_move_to_next_machine` /
+`_update_step_state` when `done.all()`.  `stepGR` is the step with that shortcut removed (both always run —
+`_move_to_next_machine` already leaves finished rows alone — and the reward is written when `done.all()`).
+For it the full statements hold with no scope restriction: the terminal mask (indeed the whole state but
+the reward field) does not depend on the batch-mates, every state reachable by *any* mask-confined run —
+also beyond the point where everything is finished — offers an action, and `done` is absorbing.  On
+everything the bundled loops observe, the repaired step agrees with the real one. -/
+
+/-- second half of the repaired `_step` -/
+def finishR (i : Inst) (s : State) (g : Bool) : State :=
+  let s1 := updateMask i (moveNext i s)
+  if g then { s1 with reward := some (rewardVal i s1) } else s1
+
+def stepGR (i : Inst) (s : State) (a : Nat) (g : Bool) : State := finishR i (apply i s a) g
+
+/-- the repaired environment stepped alone -/
+def envR : Env Inst State where
+  reset := reset
+  nAct i := i.J + 1
+  mask _ s a := s.mask a
+  step i s a := stepGR i s a (apply i s a).done
+  done _ s := s.done
+
+/-- **repaired clause (C04)**: with the shortcut removed the state a row ends in — its mask in
+particular — is the same alone and next to running batch-mates, up to the reward field -/
+theorem repaired_state_batch_independent (i : Inst) (s : State) (a : Nat) (g : Bool) :
+    stepGR i s a g = { stepM i s a with reward := (stepGR i s a g).reward } := by
+  cases g <;> simp [stepGR, finishR, stepM, stepG, finish]
+
+theorem repaired_terminal_mask_independent (i : Inst) (s : State) (a : Nat) (g g' : Bool) :
+    (stepGR i s a g).mask = (stepGR i s a g').mask := by
+  cases g <;> cases g' <;> simp [stepGR, finishR]
+
+/-- the repaired step agrees with the real one wherever the real one is used: identical while a
+batch-mate runs, and at the batch's last step identical schedule, clock, `done` and reward value -/
+theorem repaired_agrees (i : Inst) (s : State) (a : Nat) :
+    stepGR i s a false = stepG i s a false ∧
+    ((apply i s a).done = true →
+      (stepGR i s a true).sched = (stepG i s a true).sched ∧
+      (stepGR i s a true).done = (stepG i s a true).done ∧
+      (stepGR i s a true).time = (stepG i s a true).time ∧
+      (stepGR i s a true).sub = (stepG i s a true).sub ∧
+      (stepGR i s a true).reward = (stepG i s a true).reward) := by
+  refine ⟨by simp [stepGR, finishR, stepG, finish], ?_⟩
+  intro hd
+  have hmv : moveNext i (apply i s a) = apply i s a := by simp [moveNext, hd]
+  simp only [stepGR, finishR, stepG, finish, if_true, hmv]
+  refine ⟨rfl, rfl, rfl, rfl, ?_⟩
+  congr 1
+
+theorem live_setReward (i : Inst) (s : State) (l : Live i s) (r : Option Int) :
+    Live i { s with reward := r } :=
+  ⟨core_setReward i s l.core r, l.fresh, l.rdy⟩
+
+/-- every state of the repaired environment, reached by ANY mask-confined run, satisfies the invariant -/
+theorem repaired_live (i : Inst) (h : WF i) {s : State} (hr : Reach envR i s) : Live i s :=
+  inv_of_reach (e := envR) (Inv := Live i) (live_reset i h)
+    (fun s a hl ha hm => by
+      show Live i (stepGR i s a (apply i s a).done)
+      rw [repaired_state_batch_independent]
+      exact live_setReward i _ (live_stepM i h s hl a ha hm) _) hr
+
+/-- **repaired clause (C02)**: no scope restriction — every reachable state offers an action … -/
+theorem repaired_mask_nonempty (i : Inst) (h : WF i) {s : State} (hr : Reach envR i s) :
+    ∃ a, a < envR.nAct i ∧ envR.mask i s a = true :=
+  mask_nonempty_live i s (repaired_live i h hr)
+
+/-- … and `done` is absorbing under every admitted step, also after the whole batch is finished -/
+theorem repaired_done_absorbing (i : Inst) (h : WF i) {s : State} (hr : Reach envR i s)
+    (hd : s.done = true) (a : Nat) (hm : s.mask a = true) : (envR.step i s a).done = true := by
+  have l := repaired_live i h hr
+  show (stepGR i s a (apply i s a).done).done = true
+  rw [repaired_state_batch_independent]
+  exact done_stable_live i h s l hd a hm false
+
+/-- Non-vacuity: on `one` the real solo step leaves the stale mask `10`, the repaired one `01` — and
+stepping on with the wait action keeps the repaired row finished. -/
+example : (step one (reset one) 0).mask 0 = true ∧ (envR.step one (reset one) 0).mask 0 = false ∧
+    (envR.step one (reset one) 0).mask 1 = true ∧
+    (envR.step one (envR.step one (reset one) 0) 1).done = true ∧
+    (envR.step one (reset one) 0).reward = (step one (reset one) 0).reward := by decide
 
 end Rl4co.Ffsp
